@@ -260,12 +260,9 @@ static int get_dest_reg(
     }
   }
     else
-  if (reg == 3)
   {
-    strcat(reg_str, regs[reg]);
-  }
-    else
-  {
+    // R3 as a destination is a plain register: with Ad=1 it is x(CG) and
+    // has an index word like every other register.
     if (Ad == 0)
     {
       strcat(reg_str, regs[reg]);
